@@ -88,6 +88,13 @@ fn base() -> Vec<Op> {
         c(DecRst(vec![1049])),
         c(Ed(Some(2))),
         c(Ris),
+        // several alternate-screen modes in one sequence
+        c(DecRst(vec![1049, 1047])),
+        c(DecRst(vec![47, 1049])),
+        c(DecSet(vec![1047, 1049])),
+        // calls that execute nothing must still honour a trim left pending by feed()
+        Op::new(Inert(String::new())),
+        Op::new(Inert("\x1b]0;t\x07".into())),
     ]
 }
 
